@@ -54,7 +54,8 @@ Inductive case :=
 | CHist (obs : list oev) (w : list wstep)
 | CConflict (old : list batch) (j : nat) (new : list batch) (applied : list batch)
 | CTrunc (fsz first last : N) (T : Z) (rs : list (Z * bool * list bool * list N * N * option N * bool))
-| CGroupT (stale lost : bool).
+| CGroupT (stale lost : bool)
+| CSend (fsz first last snp : N) (probes : list (N * bool)) (slots : list (N * option nat * Z * bool)).
 
 Definition dw_eqb (a : option dwrap) (b : option (N * list N * N * list N)) : bool :=
   match a, b with
@@ -262,6 +263,15 @@ Definition classify (c : case) : nat :=
   | CTrunc fsz first last T rs =>
       let L := mkLay fsz first last in
       variant (trunc_agrees tcfg_current T L None 0 rs) (trunc_agrees tcfg_repaired T L None 0 rs)
+  | CSend fsz first last snp probes slots =>
+      let E := layout_files fsz first last in
+      let optnat_eqb := fun a b : option nat => match a, b with None, None => true | Some x, Some y => Nat.eqb x y | _, _ => false end in
+      if forallb (fun p => Bool.eqb (send_append true E snp (fst p + 1)) (snd p)) probes
+         && forallb (fun q => match q with (i, f, off, tok) =>
+                                let r := slot_ge true E i in
+                                optnat_eqb (fst r) f && Z.eqb (snd r) off && Bool.eqb (storage_term_ok true E snp i) tok
+                              end) slots
+      then 0 else 3
   | CGroupT stale lost =>
       variant (Bool.eqb (group_lost true (two_outage_forced tcfg_current stale)) lost)
               (Bool.eqb (group_lost true (two_outage_forced tcfg_repaired stale)) lost)
